@@ -22,6 +22,19 @@
 //! mgr <n> [f64] inner=<k> terms=<k>  -> C14: every line also runs on a manager with these
 //!                              capacities (oracles only; the printed output is the reference's)
 //! ```
+//! Suite `termcap` (`gen --suite termcap`, oracle only: capacities are not modelled): cases
+//! `termcap-…` use the protocol above on a manager whose terminal (or inner-node) store is tiny
+//! plus
+//! ```text
+//! taudit                    -> <inner nodes> <terminals>   terminal reference-count audit: every
+//!                              stored terminal held by an iterator edge survives a collection, after
+//!                              giving the edges back exactly the terminals live handles reach remain
+//! ```
+//! and print `<reference output>` or `<reference output> ## <output under the capacity>`.
+//! Additional oracles in these cases: a failing request is legitimate only if the terminals it
+//! needs do not fit (`oom-with-room`), terminal slots change their value only across a regular
+//! collection (`terminal-reclaimed-outside-gc`), every live handle keeps its value table after
+//! every line.
 //! Cases named `kf-mtbdd-…` are executed by a child process (`<exe> kf-child`); if it dies the
 //! remaining lines of the case answer `ABORT` and a `crash` failure is reported.
 //!
@@ -533,6 +546,69 @@ where
     Ok(Audit { nodes, child_trees })
 }
 
+/// (terminal id, value) of every stored terminal, through the public iterator (owned edges, given back)
+fn term_slots_rec<M, T: Term>(m: &M) -> Vec<(usize, String)>
+where
+    M: Manager<Terminal = T>,
+{
+    let edges: Vec<M::Edge> = m.terminals().collect();
+    let mut v = Vec::new();
+    for e in edges {
+        if let Node::Terminal(t) = m.get_node(&e) {
+            v.push((e.node_id(), t.borrow().tok()));
+        }
+        m.drop_edge(e);
+    }
+    v.sort();
+    v
+}
+
+/// Terminal reference counts, observed through collections: while the iterator's (owned) edges are
+/// held no terminal may be collected and none may change; the caller then runs the ordinary `gc`
+/// line, which demands that exactly the reachable terminals remain.
+fn taudit_rec<M, T: Term>(m: &M) -> Result<(usize, usize), String>
+where
+    M: Manager<Terminal = T>,
+{
+    let edges: Vec<M::Edge> = m.terminals().collect();
+    let vals: Vec<String> = edges
+        .iter()
+        .map(|e| match m.get_node(e) {
+            Node::Terminal(t) => t.borrow().tok(),
+            Node::Inner(_) => "<inner node>".to_string(),
+        })
+        .collect();
+    let before = m.num_terminals();
+    let mut err = None;
+    if before != edges.len() {
+        err = Some(format!("num_terminals() = {} but the iterator yields {} edges", before, edges.len()));
+    }
+    m.gc();
+    let held = m.num_terminals();
+    if err.is_none() && held != before {
+        err = Some(format!(
+            "{} terminals were stored and every one of them was held by an edge from terminals(), but after gc() only {} are stored (the iterator's edges are not counted)",
+            before, held
+        ));
+    }
+    for (e, v) in edges.iter().zip(vals.iter()) {
+        let now = match m.get_node(e) {
+            Node::Terminal(t) => t.borrow().tok(),
+            Node::Inner(_) => "<inner node>".to_string(),
+        };
+        if err.is_none() && now != *v {
+            err = Some(format!("the terminal edge for {} (held across a gc) now reads {}", v, now));
+        }
+    }
+    for e in edges {
+        m.drop_edge(e);
+    }
+    match err {
+        Some(e) => Err(e),
+        None => Ok((before, held)),
+    }
+}
+
 impl<T: Term> MgrState<T> {
     fn new(n: u32, inner_cap: usize, term_cap: usize) -> Self {
         let mref = oxidd::mtbdd::new_manager::<T>(inner_cap, term_cap, 1 << 10, 1);
@@ -550,6 +626,27 @@ impl<T: Term> MgrState<T> {
     }
     fn counts(&self) -> (usize, usize) {
         self.mref.with_manager_shared(|m| (m.num_inner_nodes(), m.num_terminals()))
+    }
+    fn term_slots(&self) -> Vec<(usize, String)> {
+        self.mref.with_manager_shared(|m| term_slots_rec(m))
+    }
+    fn gc_count(&self) -> u64 {
+        self.mref.with_manager_shared(|m| m.gc_count() + m.reorder_count())
+    }
+    /// terminal id if the handle is a constant
+    fn leaf_slot(&self, h: &str) -> Option<usize> {
+        let f = self.hs.get(h)?;
+        f.with_manager_shared(|m, e| match m.get_node(e) {
+            Node::Terminal(_) => Some(e.node_id()),
+            Node::Inner(_) => None,
+        })
+    }
+    /// distinct terminal values below a handle
+    fn terms_of(&self, h: &str) -> Option<HashSet<String>> {
+        let f = self.hs.get(h)?;
+        let (mut inner, mut terms) = (HashSet::new(), HashSet::new());
+        unfold(f).collect(&mut inner, &mut terms);
+        Some(terms)
     }
 
     fn audit(&self, ctx: &mut Ctx, when: &str) -> Option<Audit> {
@@ -843,6 +940,17 @@ impl<T: Term> MgrState<T> {
                 }
                 if ta != terms.len() {
                     ctx.fail("gc-terminals-not-exact", &format!("after gc {} terminals are stored but {} are reachable from the {} live handles", ta, terms.len(), self.hs.len()));
+                } else {
+                    // ... and they are the same values (a collected terminal that is still referenced
+                    // and a kept one that is not would cancel out in the count)
+                    let stored: HashSet<String> = self.term_slots().into_iter().map(|(_, v)| v).collect();
+                    if stored != terms {
+                        let mut miss: Vec<&String> = terms.difference(&stored).collect();
+                        let mut extra: Vec<&String> = stored.difference(&terms).collect();
+                        miss.sort();
+                        extra.sort();
+                        ctx.fail("gc-terminals-not-exact", &format!("after gc the stored terminals differ from the terminals reachable from live handles: reachable but not stored {:?}, stored but unreachable {:?}", miss, extra));
+                    }
                 }
                 self.check_tables(ctx, "gc-changed-function", "after gc");
                 self.rcchk(ctx, "after gc");
@@ -856,6 +964,18 @@ impl<T: Term> MgrState<T> {
             ["rcchk"] => {
                 self.rcchk(ctx, "rcchk");
                 "ok".into()
+            }
+            ["taudit"] => {
+                match self.mref.with_manager_shared(|m| taudit_rec(m)) {
+                    Ok((before, _)) => {
+                        ctx.count("taudit");
+                        ctx.add("taudit.terminals-held", before as u64);
+                    }
+                    Err(e) => ctx.fail("terminal-ref-count", &format!("taudit: {}", e)),
+                }
+                self.check_tables(ctx, "gc-changed-function", "after a gc with all terminals held");
+                // all iterator edges are given back: the ordinary collection oracle decides
+                self.step(&["gc"], ctx)
             }
             ["order", rest @ ..] => {
                 let seq = rest.iter().any(|x| *x == "seq=1");
@@ -926,6 +1046,37 @@ struct Sc {
     diverged: bool,
     /// a `kf-mtbdd-…` case is executed by a child process so that an abort does not end the stream
     child: Option<KfChild>,
+    /// bookkeeping of the `termcap-…` cases
+    tc: TcState,
+}
+
+/// What the `termcap-…` cases remember about the capped manager (all of it observed through the
+/// public API: terminal iterator, `node_id`, `gc_count`, `num_terminals`)
+#[derive(Default)]
+struct TcState {
+    /// terminal id -> (value last seen there, gc_count + reorder_count when it was last looked at, stored at that time)
+    slots: HashMap<usize, (String, u64, bool)>,
+    /// ids that have held two different values during this case
+    reused: HashSet<usize>,
+    reuse_epoch: u64,
+    /// requests issued while the terminal store was full
+    full_events: u64,
+    /// operation (without the result handle) -> (reuse epoch, collections, full events) at its last successful execution
+    seen: HashMap<String, (u64, u64, u64)>,
+    /// lines that reported out of memory and did not succeed since -> collections at that time
+    oomed: HashMap<String, u64>,
+    /// an oracle failed on the capped manager: lines until it is abandoned
+    abandon_in: Option<u32>,
+    /// `terminal-reclaimed-outside-gc` is reported once per case
+    reclaim_reported: bool,
+    /// an oracle failed on the reference manager: the remaining lines are skipped
+    dead: bool,
+}
+
+/// state of the capped manager before a line of a `termcap-…` case
+struct TcPre {
+    usage: (usize, usize, usize, usize),
+    stored: HashSet<String>,
 }
 
 fn f64_laws(a: F64, ctx: &mut Ctx) {
@@ -959,6 +1110,7 @@ impl Scenario for Sc {
         self.st = St::None;
         self.diverged = false;
         self.child = None;
+        self.tc = TcState::default();
     }
     fn step(&mut self, line: &str, ctx: &mut Ctx) -> String {
         if ctx.case.starts_with("case kf-mtbdd-") && !ctx.extra.contains_key("kf-child") {
@@ -1053,6 +1205,7 @@ impl Scenario for Sc {
                 self.st = St::None;
                 self.capped = St::None;
                 self.diverged = false;
+                self.tc = TcState::default();
                 self.st = if f64m { St::F(MgrState::new(n, DEFAULT_INNER, DEFAULT_TERMS)) } else { St::I(MgrState::new(n, DEFAULT_INNER, DEFAULT_TERMS)) };
                 if ic.is_some() || tc.is_some() {
                     let (ic, tc) = (ic.unwrap_or(DEFAULT_INNER), tc.unwrap_or(DEFAULT_TERMS));
@@ -1062,9 +1215,49 @@ impl Scenario for Sc {
                 "ok".into()
             }
             ws => {
+                let capped = !matches!(self.capped, St::None);
+                let tcase = ctx.case.starts_with("case termcap-");
+                if tcase && self.tc.dead {
+                    return "SKIPPED".into();
+                }
+                let pre = if capped && tcase { Some(self.tc_pre()) } else { None };
+                let nf_ref = ctx.failures.len();
                 let out_ref = self.st.step(ws, ctx);
-                if !matches!(self.capped, St::None) {
-                    self.capped_step(line, ws, &out_ref, ctx);
+                if tcase && ctx.failures.len() > nf_ref {
+                    // an oracle failed on the reference manager: its memory may be corrupted (these
+                    // cases look for use-after-free situations); the rest of the case is skipped
+                    self.tc.dead = true;
+                    std::mem::forget(std::mem::replace(&mut self.st, St::None));
+                    std::mem::forget(std::mem::replace(&mut self.capped, St::None));
+                    ctx.count("termcap.case-abandoned");
+                    return out_ref;
+                }
+                if capped {
+                    let nf = ctx.failures.len();
+                    let out_cap = self.capped_step(line, ws, &out_ref, ctx);
+                    if let Some(pre) = pre {
+                        self.tc_post(line, ws, pre, &out_ref, &out_cap, ctx);
+                        // A capped manager on which an oracle failed may be corrupted (freed terminal
+                        // slots that are still referenced): it is abandoned (leaked, not dropped) at a
+                        // wrong value, or a few lines after the first unprotocolled reclamation, and
+                        // the rest of the case runs on the reference manager only.
+                        let new = &ctx.failures[nf..];
+                        let hard = new.iter().any(|f| !f.contains("\"sig\":\"terminal-reclaimed-outside-gc\""));
+                        if !new.is_empty() && self.tc.abandon_in.is_none() {
+                            self.tc.abandon_in = Some(40);
+                        }
+                        if let Some(k) = self.tc.abandon_in.as_mut() {
+                            if hard || *k == 0 {
+                                std::mem::forget(std::mem::replace(&mut self.capped, St::None));
+                                ctx.count("termcap.capped-manager-abandoned");
+                            } else {
+                                *k -= 1;
+                            }
+                        }
+                        if out_cap != out_ref {
+                            return format!("{} ## {}", out_ref, out_cap);
+                        }
+                    }
                 }
                 out_ref
             }
@@ -1076,7 +1269,7 @@ impl St {
     fn step(&mut self, ws: &[&str], ctx: &mut Ctx) -> String {
         match self {
             St::None => {
-                if matches!(ws.first(), Some(&"const" | &"var" | &"op" | &"ite" | &"restrict" | &"eval" | &"clone" | &"drop" | &"dropall" | &"eq" | &"gc" | &"rcchk" | &"order")) {
+                if matches!(ws.first(), Some(&"const" | &"var" | &"op" | &"ite" | &"restrict" | &"eval" | &"clone" | &"drop" | &"dropall" | &"eq" | &"gc" | &"rcchk" | &"order" | &"taudit")) {
                     "err nomgr".into()
                 } else {
                     "bad-op".into()
@@ -1100,6 +1293,41 @@ impl St {
             }
         }
     }
+    fn term_slots(&self) -> Vec<(usize, String)> {
+        match self {
+            St::None => Vec::new(),
+            St::I(m) => m.term_slots(),
+            St::F(m) => m.term_slots(),
+        }
+    }
+    fn gc_count(&self) -> u64 {
+        match self {
+            St::None => 0,
+            St::I(m) => m.gc_count(),
+            St::F(m) => m.gc_count(),
+        }
+    }
+    fn leaf_slot(&self, h: &str) -> Option<usize> {
+        match self {
+            St::None => None,
+            St::I(m) => m.leaf_slot(h),
+            St::F(m) => m.leaf_slot(h),
+        }
+    }
+    fn terms_of(&self, h: &str) -> Option<HashSet<String>> {
+        match self {
+            St::None => None,
+            St::I(m) => m.terms_of(h),
+            St::F(m) => m.terms_of(h),
+        }
+    }
+    fn check_tables(&self, ctx: &mut Ctx, sig: &str, when: &str) {
+        match self {
+            St::None => {}
+            St::I(m) => m.check_tables(ctx, sig, when),
+            St::F(m) => m.check_tables(ctx, sig, when),
+        }
+    }
     fn integrity(&self, ctx: &mut Ctx, sig: &str, when: &str) {
         match self {
             St::None => {}
@@ -1117,7 +1345,7 @@ impl St {
 
 impl Sc {
     /// C14: the same line on the capped manager; oracles only (the printed output is the reference's)
-    fn capped_step(&mut self, line: &str, ws: &[&str], out_ref: &str, ctx: &mut Ctx) {
+    fn capped_step(&mut self, line: &str, ws: &[&str], out_ref: &str, ctx: &mut Ctx) -> String {
         let mut sub = Ctx { line_no: ctx.line_no, case: ctx.case.clone(), failures: Vec::new(), stats: BTreeMap::new(), extra: ctx.extra.clone() };
         let out_cap = self.capped.step(ws, &mut sub);
         for f in sub.failures.drain(..) {
@@ -1146,14 +1374,140 @@ impl Sc {
         } else if out_cap == "err handle" && self.diverged {
             // an operand that could not be built under the capacity
             ctx.count("capped.skipped");
-        } else if out_cap != out_ref && !(self.diverged && ws[0] == "gc") {
+        } else if out_cap != out_ref && !(self.diverged && (ws[0] == "gc" || ws[0] == "taudit")) {
             ctx.fail("capacity-dependent-result", &format!("`{}` gives {} under capacities inner={} terms={} but {} without limit", line, out_cap, self.capped.usage().2, self.capped.usage().3, out_ref));
         } else {
             ctx.count("capped.ok");
-            if self.diverged && ws[0] != "gc" && ws[0] != "dropall" && ws[0] != "drop" {
+            if self.diverged && ws[0] != "gc" && ws[0] != "taudit" && ws[0] != "dropall" && ws[0] != "drop" {
                 ctx.count("capped.ok-after-oom");
             }
         }
+        out_cap
+    }
+
+    fn tc_pre(&self) -> TcPre {
+        TcPre {
+            usage: self.capped.usage(),
+            stored: self.tc.slots.values().filter(|x| x.2).map(|x| x.0.clone()).collect(),
+        }
+    }
+
+    /// the `termcap-…` oracles and statistics after a line was executed on both managers
+    fn tc_post(&mut self, line: &str, ws: &[&str], pre: TcPre, out_ref: &str, out_cap: &str, ctx: &mut Ctx) {
+        let (pi, pt, ic, tcap) = pre.usage;
+        let request = matches!(ws[0], "const" | "var" | "op" | "ite" | "restrict") && ws.len() >= 3;
+        let failed = out_cap == "OOM";
+        let ok = request && !failed && !out_cap.starts_with("err") && out_cap != "bad-op";
+        // the terminals the result needs that were not stored (reference result: the reference manager
+        // executed the same line; all terminals an operator creates are part of its result)
+        let ref_ok = !(out_ref.starts_with("err") || out_ref == "bad-op" || out_ref == "OOM");
+        let need: Option<usize> = if request && ref_ok { self.st.terms_of(ws[1]).map(|t| t.difference(&pre.stored).count()) } else { None };
+        if request && pt >= tcap {
+            ctx.count("termcap.request-at-full-terminal-store");
+            self.tc.full_events += 1;
+            if ws[0] == "const" {
+                match need {
+                    Some(0) => ctx.count("termcap.const-at-full.value-already-stored"),
+                    _ if failed => ctx.count("termcap.const-at-full.oom"),
+                    _ => ctx.count("termcap.const-at-full.succeeded"),
+                }
+            }
+        }
+        if request && pi >= ic {
+            ctx.count("termcap.request-at-full-inner-store");
+        }
+        if let Some(need) = need {
+            if failed && pt + need <= tcap && ic - pi.min(ic) >= 16 {
+                ctx.fail("oom-with-room", &format!("`{}` reported out of memory although it needs {} new terminal(s) and {} of {} terminal slots ({} of {} inner-node slots) were in use", line, need, pt, tcap, pi, ic));
+            }
+            if ok && pt + need > tcap {
+                ctx.count("termcap.succeeded-beyond-free-slots");
+            }
+        }
+        if failed {
+            self.tc.oomed.insert(line.to_string(), self.capped.gc_count());
+            ctx.count("termcap.oom");
+            match need {
+                Some(k) if pt + k > tcap => ctx.count("termcap.oom.terminals-do-not-fit"),
+                Some(_) if ic - pi.min(ic) < 16 => ctx.count("termcap.oom.inner-store-tight"),
+                Some(_) => {}
+                None => ctx.count("termcap.oom.unclassified"),
+            }
+        } else if ok {
+            if let Some(g) = self.tc.oomed.remove(line) {
+                ctx.count("termcap.retry-ok");
+                if self.capped.gc_count() > g {
+                    ctx.count("termcap.retry-ok.after-gc");
+                }
+            }
+        }
+        // terminal slots: values change (and disappear) only across a regular collection
+        let now = self.capped.term_slots();
+        let gcc = self.capped.gc_count();
+        let (_, t_after, _, _) = self.capped.usage();
+        if t_after > tcap {
+            ctx.fail("capacity-exceeded", &format!("{} terminals are stored, the capacity is {}", t_after, tcap));
+        }
+        let now_ids: HashSet<usize> = now.iter().map(|x| x.0).collect();
+        let mut outside: Option<String> = None;
+        for (id, (val, g, present)) in self.tc.slots.iter_mut() {
+            if *present && !now_ids.contains(id) {
+                if *g == gcc && outside.is_none() {
+                    outside = Some(format!("terminal {} (id {}) is no longer stored after `{}` although no collection ran", val, id, line));
+                }
+                *present = false;
+                *g = gcc;
+            }
+        }
+        for (id, val) in now {
+            match self.tc.slots.get_mut(&id) {
+                Some((old, g, present)) => {
+                    if *old != val {
+                        ctx.count("termcap.slot-reused");
+                        self.tc.reused.insert(id);
+                        self.tc.reuse_epoch += 1;
+                        if *present && *g == gcc && outside.is_none() {
+                            outside = Some(format!("terminal id {} held {} and holds {} after `{}` although no collection ran in between", id, old, val, line));
+                        }
+                        *old = val;
+                    }
+                    *g = gcc;
+                    *present = true;
+                }
+                None => {
+                    self.tc.slots.insert(id, (val, gcc, true));
+                }
+            }
+        }
+        if let Some(msg) = outside.filter(|_| !std::mem::replace(&mut self.tc.reclaim_reported, true)) {
+            ctx.fail("terminal-reclaimed-outside-gc", &format!("{} (cache entries and borrowed edges may still refer to it)", msg));
+        }
+        // the same operation again: what happened since its last execution
+        if ok && matches!(ws[0], "op" | "ite" | "restrict") {
+            let key = format!("{} {}", ws[0], ws[2..].join(" "));
+            if let Some(&(ep, g, fe)) = self.tc.seen.get(&key) {
+                ctx.count("termcap.op-repeated");
+                if self.tc.reuse_epoch > ep {
+                    ctx.count("termcap.op-repeated.after-slot-reuse");
+                }
+                if g == gcc {
+                    ctx.count("termcap.op-repeated.no-gc-since");
+                    if self.tc.full_events > fe {
+                        ctx.count("termcap.op-repeated.no-gc-since.after-store-full");
+                    }
+                }
+            }
+            self.tc.seen.insert(key, (self.tc.reuse_epoch, gcc, self.tc.full_events));
+            let operands: &[&str] = if ws[0] == "op" { &ws[3..] } else { &ws[2..] };
+            if operands.iter().any(|x| self.capped.leaf_slot(x).map_or(false, |id| self.tc.reused.contains(&id))) {
+                ctx.count("termcap.op.operand-in-reused-slot");
+            }
+            if self.capped.leaf_slot(ws[1]).map_or(false, |id| self.tc.reused.contains(&id)) {
+                ctx.count("termcap.op.result-in-reused-slot");
+            }
+        }
+        // every live handle of the capped manager still denotes the function it was created with
+        self.capped.check_tables(ctx, "termcap-handle-changed", &format!("after `{}`", line));
     }
 }
 
@@ -1980,9 +2334,422 @@ fn gen_kf(w: &mut dyn Write) {
     }
 }
 
+// ------------------------------------------------------------------------------------------
+// Suite `termcap`: tiny terminal (and inner-node) stores; results that die at once; fresh
+// constants until the store is full and beyond; the same operations again
+// ------------------------------------------------------------------------------------------
+
+/// one operation whose result is dropped right away (or at the end of the round)
+struct Probe {
+    /// `const c <v>` lines issued before the operation (the handles are dropped after it)
+    consts: Vec<(String, i64)>,
+    /// the operation with `@` for the result handle, e.g. `op @ add rf rg`
+    op: String,
+    /// the same operation with the newest fill constant (`$`) in place of the constant operand
+    with_fill: Option<String>,
+}
+
+struct TcGen<'a> {
+    w: &'a mut dyn Write,
+    f64m: bool,
+    used: HashSet<i64>,
+    probes: Vec<Probe>,
+    defer: bool,
+}
+
+impl TcGen<'_> {
+    fn c(&self, v: i64) -> String {
+        if self.f64m { format!("{:016x}", (v as f64).to_bits()) } else { v.to_string() }
+    }
+    fn line(&mut self, l: &str) {
+        writeln!(self.w, "{}", l).unwrap();
+    }
+    /// a value that occurs nowhere else in the case
+    fn fresh(&mut self, rng: &mut Rng, lo: i64, hi: i64) -> i64 {
+        loop {
+            let v = lo + rng.below((hi - lo + 1) as u64) as i64;
+            if self.used.insert(v) {
+                return v;
+            }
+            if (lo..=hi).all(|x| self.used.contains(&x)) {
+                let mut v = hi + 1;
+                while !self.used.insert(v) {
+                    v += 1;
+                }
+                return v;
+            }
+        }
+    }
+    /// the function with the given table (index bit i = variable i) under handle `h`; the variable
+    /// handles x0.. must be live; all scaffolding is dropped again
+    fn build(&mut self, h: &str, n: u32, tab: &[i64]) {
+        let mut temps: Vec<String> = Vec::new();
+        let mut consts: HashMap<i64, String> = HashMap::new();
+        fn rec(g: &mut TcGen, h: &str, n: u32, v: u32, idx: usize, tab: &[i64], temps: &mut Vec<String>, consts: &mut HashMap<i64, String>) -> String {
+            if v == n {
+                let val = tab[idx];
+                if let Some(nm) = consts.get(&val) {
+                    return nm.clone();
+                }
+                let nm = format!("{}_{}", h, temps.len());
+                let l = format!("const {} {}", nm, g.c(val));
+                g.line(&l);
+                g.used.insert(val);
+                consts.insert(val, nm.clone());
+                temps.push(nm.clone());
+                return nm;
+            }
+            let t = rec(g, h, n, v + 1, idx | (1 << v), tab, temps, consts);
+            let e = rec(g, h, n, v + 1, idx, tab, temps, consts);
+            if t == e {
+                return t;
+            }
+            let nm = format!("{}_{}", h, temps.len());
+            g.line(&format!("ite {} x{} {} {}", nm, v, t, e));
+            temps.push(nm.clone());
+            nm
+        }
+        let top = rec(self, h, n, 0, 0, tab, &mut temps, &mut consts);
+        self.line(&format!("clone {} {}", h, top));
+        for t in temps {
+            self.line(&format!("drop {}", t));
+        }
+    }
+    /// every probe once, and with each of the given fill constants as the constant operand
+    fn round(&mut self, fills: &[String]) {
+        let mut late: Vec<String> = Vec::new();
+        let mut k = 0;
+        for i in 0..self.probes.len() {
+            let consts = self.probes[i].consts.clone();
+            let mut ops = vec![self.probes[i].op.clone()];
+            if let Some(t) = &self.probes[i].with_fill {
+                for f in fills {
+                    ops.push(t.replace('$', f));
+                }
+            }
+            for (nm, v) in &consts {
+                let l = format!("const {} {}", nm, self.c(*v));
+                self.line(&l);
+            }
+            for o in ops {
+                let t = if self.defer { format!("t{}", k) } else { "t".to_string() };
+                k += 1;
+                self.line(&o.replace('@', &t));
+                if self.defer {
+                    late.push(t);
+                } else {
+                    self.line(&format!("drop {}", t));
+                }
+            }
+            for (nm, _) in &consts {
+                self.line(&format!("drop {}", nm));
+            }
+        }
+        for t in late {
+            self.line(&format!("drop {}", t));
+        }
+    }
+}
+
+const TC_OPS: [&str; 8] = ["add", "sub", "mul", "div", "min", "max", "ite", "restrict"];
+
+/// a non-constant table over `n` variables with entries from `vals`
+fn tc_table(rng: &mut Rng, n: u32, vals: &[i64]) -> Vec<i64> {
+    let distinct = vals.iter().any(|x| *x != vals[0]);
+    loop {
+        let t: Vec<i64> = (0..(1usize << n)).map(|_| *rng.pick(vals)).collect();
+        if !distinct || t.iter().any(|x| *x != t[0]) {
+            return t;
+        }
+    }
+}
+
+/// One case: operands, probes (round 0), optionally a collection, fresh constants until the store
+/// is full and beyond with the probes repeated, recovery (drop the constants, collect, the probes
+/// must succeed again), a second filling with other values, terminal audit.
+fn tc_case(w: &mut dyn Write, rng: &mut Rng, name: &str, f64m: bool, cap: u64, inner_flavour: bool, op: &str, gc_between: bool, thorough: bool) {
+    writeln!(w, "case {}", name).unwrap();
+    let n: u32 = if op == "restrict" { 2 } else if thorough && rng.chance(1, 6) { 3 } else { rng.range(1, 2) as u32 };
+    let dense = rng.chance(1, 2);
+    let mut g = TcGen { w, f64m, used: HashSet::new(), probes: Vec::new(), defer: rng.chance(1, 5) };
+    g.used.extend([0, 1]);
+    if inner_flavour {
+        g.line(&format!("mgr {}{} inner={} terms=64", n, if f64m { " f64" } else { "" }, cap));
+    } else {
+        g.line(&format!("mgr {}{} terms={}", n, if f64m { " f64" } else { "" }, cap));
+    }
+    for v in 0..n {
+        g.line(&format!("var x{} {}", v, v));
+    }
+    // the terminals 0 and 1 are referenced by nodes only: a first look at the reference counts
+    g.line("taudit");
+    let small = cap <= 5 && !inner_flavour;
+    // which operators get probes: the case's own one first, then (room permitting) others
+    let mut ops: Vec<&str> = vec![op];
+    if !matches!(op, "add" | "sub" | "mul" | "div") {
+        // an operator that creates terminals, so that a result terminal dies in every case
+        ops.push(*rng.pick(&["add", "mul", "sub", "div"]));
+    }
+    if cap >= 8 {
+        for _ in 0..rng.range(0, 2) {
+            ops.push(*rng.pick(&TC_OPS));
+        }
+    }
+    // (x0 ? 10 : 30)-like operand for the probes with a constant operand
+    let (lo_v, hi_v) = (g.fresh(rng, 8, 12), g.fresh(rng, 28, 32));
+    let mut have_of = false;
+    let mut need_of = |g: &mut TcGen, rng: &mut Rng| {
+        if !have_of {
+            have_of = true;
+            let t = tc_table(rng, n, &[lo_v, hi_v]);
+            g.build("of", n, &t);
+        }
+    };
+    let mut fill_lo = -5i64;
+    let mut fill_hi = 60i64;
+    for (oi, o) in ops.clone().into_iter().enumerate() {
+        let (rf, rg, cn) = (format!("rf{}", oi), format!("rg{}", oi), format!("c{}", oi));
+        match o {
+            "add" | "sub" | "mul" | "div" => {
+                // (R) the result is a constant that occurs in neither operand: its terminal is referenced
+                // by the apply cache only once the handle is gone
+                let (tf, tg): (Vec<i64>, Vec<i64>) = loop {
+                    let (tf, tg, r): (Vec<i64>, Vec<i64>, i64) = match o {
+                        "add" => {
+                            let r = rng.range(7, 20) as i64;
+                            let a = if small { 1 } else { rng.range(1, (r - 1) as u64) as i64 };
+                            let vals = if small || rng.chance(1, 2) { vec![a, r - a] } else { vec![a, rng.range(1, (r - 1) as u64) as i64] };
+                            let tf = tc_table(rng, n, &vals);
+                            let tg = tf.iter().map(|x| r - x).collect();
+                            (tf, tg, r)
+                        }
+                        "sub" => {
+                            let r = rng.range(2, 9) as i64;
+                            let vals = [r + rng.range(1, 6) as i64, r + rng.range(7, 12) as i64];
+                            let tf = tc_table(rng, n, &vals);
+                            let tg = tf.iter().map(|x| x - r).collect();
+                            (tf, tg, r)
+                        }
+                        "mul" => {
+                            let r = *rng.pick(&[12i64, 24, 30, 36, 40]);
+                            let divs: Vec<i64> = (2..r).filter(|d| r % d == 0).collect();
+                            let a = *rng.pick(&divs);
+                            let vals = if small || rng.chance(1, 2) { vec![a, r / a] } else { vec![a, *rng.pick(&divs)] };
+                            let tf = tc_table(rng, n, &vals);
+                            let tg = tf.iter().map(|x| r / x).collect();
+                            (tf, tg, r)
+                        }
+                        _ => {
+                            let r = rng.range(2, 9) as i64;
+                            let vals = [rng.range(2, 4) as i64, rng.range(5, 7) as i64];
+                            let tg = tc_table(rng, n, &vals);
+                            let tf = tg.iter().map(|x| x * r).collect();
+                            (tf, tg, r)
+                        }
+                    };
+                    if !tf.contains(&r) && !tg.contains(&r) && tf.iter().any(|x| *x != tf[0]) {
+                        g.used.insert(r);
+                        break (tf, tg);
+                    }
+                };
+                g.build(&rf, n, &tf);
+                g.build(&rg, n, &tg);
+                g.probes.push(Probe { consts: vec![], op: format!("op @ {} {} {}", o, rf, rg), with_fill: None });
+                // (O) a constant operand that dies: `c o f` and `f o c`, later the newest fill constant
+                if !small {
+                    need_of(&mut g, rng);
+                    let c = g.fresh(rng, 2, 9);
+                    let (a, b) = if rng.chance(1, 2) { (cn.as_str(), "of") } else { ("of", cn.as_str()) };
+                    g.probes.push(Probe {
+                        consts: vec![(cn.clone(), c)],
+                        op: format!("op @ {} {} {}", o, a, b),
+                        with_fill: Some(format!("op @ {} {} {}", o, a.replace(&cn, "$"), b.replace(&cn, "$"))),
+                    });
+                }
+            }
+            "min" | "max" => {
+                // constant operand above / below / inside the operand's range: the result is the other
+                // operand, the constant itself or a node that contains it
+                need_of(&mut g, rng);
+                let pos = rng.below(4);
+                let outside_gives_f = (o == "min") == (pos != 1); // 0, 2, 3: result = of
+                let c = match (pos, outside_gives_f, o) {
+                    (3, _, _) => g.fresh(rng, 14, 26),
+                    (_, true, "min") | (_, false, "max") => g.fresh(rng, 35, 45),
+                    _ => g.fresh(rng, -5, 5),
+                };
+                // fill constants that give another result than `c` did
+                if c > 32 {
+                    fill_hi = 27;
+                } else if c < 8 {
+                    fill_lo = 13;
+                }
+                let (a, b) = if rng.chance(1, 2) { (cn.as_str(), "of") } else { ("of", cn.as_str()) };
+                g.probes.push(Probe {
+                    consts: vec![(cn.clone(), c)],
+                    op: format!("op @ {} {} {}", o, a, b),
+                    with_fill: Some(format!("op @ {} {} {}", o, a.replace(&cn, "$"), b.replace(&cn, "$"))),
+                });
+                if !small {
+                    let t = tc_table(rng, n, &[lo_v + 5, hi_v - 5, lo_v]);
+                    g.build(&rf, n, &t);
+                    g.probes.push(Probe { consts: vec![], op: format!("op @ {} of {}", o, rf), with_fill: None });
+                }
+            }
+            "ite" => {
+                need_of(&mut g, rng);
+                let c = g.fresh(rng, 2, 9);
+                let cond = format!("x{}", rng.below(n as u64));
+                let (a, b) = if rng.chance(1, 2) { (cn.as_str(), "of") } else { ("of", cn.as_str()) };
+                g.probes.push(Probe {
+                    consts: vec![(cn.clone(), c)],
+                    op: format!("ite @ {} {} {}", cond, a, b),
+                    with_fill: Some(format!("ite @ {} {} {}", cond, a.replace(&cn, "$"), b.replace(&cn, "$"))),
+                });
+                if !small {
+                    let t = tc_table(rng, n, &[lo_v, hi_v - 5, hi_v + 7]);
+                    g.build(&rf, n, &t);
+                    g.probes.push(Probe { consts: vec![], op: format!("ite @ x{} of {}", rng.below(n as u64), rf), with_fill: None });
+                    g.probes.push(Probe { consts: vec![], op: format!("ite @ x{} {} of", rng.below(n as u64), rf), with_fill: None });
+                }
+            }
+            _ => {
+                // restrict: f above the restricted variable (the memoised path), both polarities, a cube
+                need_of(&mut g, rng);
+                let t = tc_table(rng, n, &[lo_v, hi_v, hi_v + 7]);
+                g.build(&rf, n, &t);
+                let l = format!("const one {}", g.c(1));
+                g.line(&l);
+                for v in 0..n {
+                    g.line(&format!("op nx{} sub one x{}", v, v));
+                }
+                g.line("drop one");
+                let v = n - 1;
+                g.probes.push(Probe { consts: vec![], op: format!("restrict @ {} x{}", rf, v), with_fill: None });
+                g.probes.push(Probe { consts: vec![], op: format!("restrict @ {} nx{}", rf, v), with_fill: None });
+                g.probes.push(Probe { consts: vec![], op: format!("restrict @ of nx{}", v), with_fill: None });
+                if n >= 2 && !small {
+                    g.line(&format!("op q mul {}x0 {}x1", if rng.chance(1, 2) { "n" } else { "" }, if rng.chance(1, 2) { "n" } else { "" }));
+                    g.probes.push(Probe { consts: vec![], op: format!("restrict @ {} q", rf), with_fill: None });
+                }
+            }
+        }
+    }
+    // the variables stay only where a probe needs them (their terminals 0 and 1 occupy two slots)
+    let uses_vars = ops.iter().any(|o| matches!(*o, "ite" | "restrict")) || inner_flavour;
+    if !uses_vars {
+        for v in 0..n {
+            g.line(&format!("drop x{}", v));
+        }
+    }
+    g.line("gc");
+    // round 0: results (and constant operands) die at once; the apply cache remembers them
+    g.round(&[]);
+    if rng.chance(1, 3) {
+        g.round(&[]);
+    }
+    match (gc_between, rng.below(3)) {
+        (false, _) => {}
+        (true, 0) => g.line("taudit"),
+        (true, _) => g.line("gc"),
+    }
+    // fresh constants until the store is full and beyond; the same operations again (before the
+    // next regular collection unless `gc_between`)
+    let extra = rng.range(1, 3);
+    for phase in 0..2 {
+        let cnt = cap + extra;
+        let mut fills: Vec<String> = Vec::new();
+        let mut consts: Vec<String> = Vec::new();
+        let mut last_lines: Vec<(String, String)> = Vec::new();
+        for j in 0..cnt {
+            let nm = format!("k{}_{}", phase, j);
+            let v = g.fresh(rng, fill_lo, fill_hi);
+            let l = format!("const {} {}", nm, g.c(v));
+            g.line(&l);
+            if j + 2 >= cnt {
+                last_lines.push((nm.clone(), l));
+            }
+            if inner_flavour {
+                // one new live node per constant
+                let prev = if j == 0 { "of".to_string() } else { format!("k{}_{}", phase, j - 1) };
+                g.line(&format!("ite nd{}_{} x0 {} {}", phase, j, nm, prev));
+                fills.push(format!("nd{}_{}", phase, j));
+            }
+            fills.push(nm.clone());
+            consts.push(nm.clone());
+            if dense {
+                g.round(&[nm]);
+            } else if j + 1 == cnt {
+                g.round(&consts);
+            }
+            if gc_between && rng.chance(1, 12) {
+                g.line("gc");
+            }
+        }
+        g.round(&[]);
+        g.line("rcchk");
+        if phase == 0 {
+            // recovery: without the constants and after a collection every probe succeeds again
+            for f in &fills {
+                g.line(&format!("drop {}", f));
+            }
+            g.line(if rng.chance(1, 2) { "gc" } else { "taudit" });
+            g.round(&[]);
+            // the requests that failed on the full store, again
+            for (_, l) in &last_lines {
+                g.line(l);
+            }
+            for (nm, _) in &last_lines {
+                g.line(&format!("drop {}", nm));
+            }
+            if !gc_between && rng.chance(1, 2) {
+                // once more with a clean cache and dead results in the store
+            } else {
+                g.line("gc");
+            }
+        }
+    }
+    g.line("taudit");
+}
+
+fn gen_termcap(cfg: &GenCfg, rng: &mut Rng, w: &mut dyn Write) {
+    // the grid: every capacity 2..16 x every operator x both terminal kinds x with / without a
+    // collection between the first execution and the filling; thorough: several value choices each
+    let reps = if cfg.thorough { 6 } else { 1 } * cfg.scale;
+    for rep in 0..reps {
+        for f64m in [false, true] {
+            for cap in 2..=16u64 {
+                for op in TC_OPS {
+                    for gcb in [false, true] {
+                        let name = format!("termcap-{}-{}-k{}-{}-{}", if f64m { "f64" } else { "i64" }, op, cap, if gcb { "gc" } else { "nogc" }, rep);
+                        tc_case(w, rng, &name, f64m, cap, false, op, gcb, cfg.thorough);
+                    }
+                }
+            }
+        }
+        // tiny inner-node stores (the analogous situation for nodes): a smaller grid
+        for cap in 2..=16u64 {
+            for op in TC_OPS {
+                if !cfg.thorough && rng.chance(1, 2) {
+                    continue;
+                }
+                let f64m = rng.chance(1, 4);
+                let gcb = rng.chance(1, 2);
+                let name = format!("termcap-inner-{}-{}-k{}-{}-{}", if f64m { "f64" } else { "i64" }, op, cap, if gcb { "gc" } else { "nogc" }, rep);
+                tc_case(w, rng, &name, f64m, cap, true, op, gcb, cfg.thorough);
+            }
+        }
+    }
+}
+
 fn generate(cfg: &GenCfg, rng: &mut Rng, w: &mut dyn Write) {
     let mut ce = CaseEnd { w, buf: Vec::new(), has_mgr: false, skip: false };
     let w: &mut dyn Write = &mut ce;
+    if cfg.extra.get("suite").map(|s| s.as_str()) == Some("termcap") {
+        gen_termcap(cfg, rng, w);
+        ce.end().unwrap();
+        return;
+    }
     gen_scalar_i64(cfg, rng, w);
     gen_scalar_f64(cfg, rng, w);
     gen_terminal_pairs(w);
@@ -2088,7 +2855,7 @@ fn kf_child_main(case: &str) {
     std::panic::set_hook(Box::new(|_| {}));
     let mut extra = BTreeMap::new();
     extra.insert("kf-child".to_string(), "1".to_string());
-    let mut sc = Sc { st: St::None, capped: St::None, diverged: false, child: None };
+    let mut sc = Sc { st: St::None, capped: St::None, diverged: false, child: None, tc: TcState::default() };
     let mut ctx = Ctx { line_no: 0, case: case.to_string(), failures: Vec::new(), stats: BTreeMap::new(), extra };
     let stdin = std::io::stdin();
     let out = std::io::stdout();
@@ -2116,7 +2883,7 @@ fn kf_child_main(case: &str) {
 }
 
 fn make(_f: &BTreeMap<String, String>) -> Box<dyn Scenario> {
-    Box::new(Sc { st: St::None, capped: St::None, diverged: false, child: None })
+    Box::new(Sc { st: St::None, capped: St::None, diverged: false, child: None, tc: TcState::default() })
 }
 
 fn main() {
